@@ -298,8 +298,16 @@ fn case_stall(r: &mut Report, cx: &Ctx, case: u64) {
     let mut rng = Rng::derive(cx.seed, 0x0920_0000 + case);
     let peer: SocketAddr = "10.20.30.40:5555".parse().unwrap();
     let reqm = gen_request(&mut rng, &GenOpts { max_fields: 4, max_body: 20, allow_xff: false });
-    let req = parse_req(&reqm, peer).unwrap();
-    let kind = case % 5;
+    let mut req = parse_req(&reqm, peer).unwrap();
+    let kind = case % 6;
+    if kind == 5 {
+        // a request larger than the socket buffers, for the upstream that accepts and never reads (the stall is on the write)
+        req.method = humphrey::http::method::Method::Post;
+        req.headers.remove(humphrey::http::headers::HeaderType::ContentLength);
+        let body = vec![b'u'; 12 << 20];
+        req.headers.add(humphrey::http::headers::HeaderType::ContentLength, body.len().to_string());
+        req.content = Some(body);
+    }
     let valid = b"HTTP/1.1 200 OK\r\nContent-Length: 40\r\nX-A: b\r\n\r\n0123456789012345678901234567890123456789".to_vec();
     let (name, target): (&str, SocketAddr) = match kind {
         0 => ("connection-refused", closed_port()),
@@ -315,10 +323,14 @@ fn case_stall(r: &mut Report, cx: &Ctx, case: u64) {
             cx.srv.push(Play::Trickle { bytes: valid.clone(), per_byte_ms: 50 });
             ("trickle-50ms-per-byte", cx.srv.addr)
         }
-        _ => {
+        4 => {
             // head promptly, then silence before the body
             cx.srv.push(Play::Respond { bytes: valid[..valid.len() - 40].to_vec(), seg: vec![], gap_us: 0, linger_ms: 4500 });
             ("head-then-silence", cx.srv.addr)
+        }
+        _ => {
+            cx.srv.push(Play::AcceptNoRead { hold_ms: 4500 });
+            ("accept-never-read-12MiB-request", cx.srv.addr)
         }
     };
     r.eval();
@@ -331,6 +343,7 @@ fn case_stall(r: &mut Report, cx: &Ctx, case: u64) {
         Outcome::Hung => {
             let sig = match kind {
                 1 | 4 => "C09/no-read-timeout",
+                5 => "C09/no-write-timeout",
                 3 => "C09/trickle-exceeds-timeout",
                 _ => "C09/no-return-within-timeout",
             };
@@ -722,5 +735,5 @@ pub fn main(args: &Args) {
         r
     });
     let total = Report::merge_all(reports);
-    total.write(out, "proxy_request (timeout 300 ms) against a scripted loopback upstream that records the request and then plays: valid responses over every modelled status code with Content-Length / chunked (random chunkings) / close-delimited bodies; every third one additionally cut at every byte offset (<= 260 B, sampled above) followed by FIN; 10 kinds of non-HTTP / header-malformed answers; connection refused, accept-then-silence, accept-then-close, 50 ms-per-byte trickle, head-then-silence, late partial response then stall (timeout 1000 ms, bound +500 ms); client requests as in C02 (<= 12 fields); proxy_handler with route-prefix stripping and blacklist; LoadBalancer::select_target from 1..8 threads over 1..4 targets, and overlapping proxy_handler calls against slow upstreams (per-target request counts must equal the rotation). distinct = distinct upstream byte strings / histories; non-trivial = upstream messages that are complete valid responses, plus every malformed/stall/handler/balancer case", None, &["wall time is the property here: a call must return within timeout + 3 s (10x the timeout as slack)", "bare-LF line endings and an unknown HTTP version may be relayed or answered 502 (both accepted)", "status codes outside the 39 the library models are not generated"]);
+    total.write(out, "proxy_request (timeout 300 ms) against a scripted loopback upstream that records the request and then plays: valid responses over every modelled status code with Content-Length / chunked (random chunkings) / close-delimited bodies; every third one additionally cut at every byte offset (<= 260 B, sampled above) followed by FIN; 10 kinds of non-HTTP / header-malformed answers; connection refused, accept-then-silence, accept-then-close, 50 ms-per-byte trickle, head-then-silence, accept-and-never-read with a 12 MiB request, late partial response then stall (timeout 1000 ms, bound +500 ms); client requests as in C02 (<= 12 fields); proxy_handler with route-prefix stripping and blacklist; LoadBalancer::select_target from 1..8 threads over 1..4 targets, and overlapping proxy_handler calls against slow upstreams (per-target request counts must equal the rotation). distinct = distinct upstream byte strings / histories; non-trivial = upstream messages that are complete valid responses, plus every malformed/stall/handler/balancer case", None, &["wall time is the property here: a call must return within timeout + 3 s (10x the timeout as slack)", "bare-LF line endings and an unknown HTTP version may be relayed or answered 502 (both accepted)", "status codes outside the 39 the library models are not generated"]);
 }
